@@ -55,6 +55,38 @@ type c20Case struct {
 
 func init() { register("c20", checkC20) }
 
+// c20Day: which of two days the injectable clock shows; the sequential passes run on different days (a write whose
+// metadata supplies no STL dates takes them from the clock of that very call, whatever earlier calls saw)
+var c20Day atomic.Int32
+
+func c20Now() time.Time {
+	if c20Day.Load() == 1 {
+		return c19NowB
+	}
+	return c19NowA
+}
+
+// stlDatesResult blanks the creation / revision dates of an STL file and says whether they were those of the clock.
+func stlDatesResult(o c20Op, b []byte) ([]byte, string) {
+	if len(b) <= 224 || (o.Format != "stl" && !strings.EqualFold(o.Format, "file:stl")) {
+		return b, ""
+	}
+	m := o.Spec.Meta
+	if m.STL != nil && m.STLDates && !m.Nil {
+		return b, ""
+	}
+	today := c20Now().Format("060102")
+	flag := ""
+	if len(b) >= 236 {
+		flag = fmt.Sprintf("|dates-follow-the-clock:%v", string(b[224:230]) == today && string(b[230:236]) == today)
+	}
+	b = append([]byte(nil), b...)
+	for i := 224; i < 236 && i < len(b); i++ {
+		b[i] = '-'
+	}
+	return b, flag
+}
+
 var (
 	c20DirOnce sync.Once
 	c20Dir     string
@@ -129,7 +161,8 @@ func (o c20Op) run() (res string) {
 		if o.FailAt > 0 {
 			fw := &faultWriter{k: o.FailAt - 1, mode: o.FailMode}
 			err = writeFormat(o.Format, s, fw)
-			return fmt.Sprintf("%v|%s|%s", err != nil, hashOf(fw.buf.Bytes()), hashOf([]byte(canon(s))))
+			part, _ := stlDatesResult(o, fw.buf.Bytes())
+			return fmt.Sprintf("%v|%s|%s", err != nil, hashOf(part), hashOf([]byte(canon(s))))
 		}
 		if strings.HasPrefix(o.Format, "file:") {
 			// the file-level helper, every call to a file of its own in one directory shared by all calls of the process
@@ -141,7 +174,8 @@ func (o c20Op) run() (res string) {
 			if err != nil {
 				err = errors.New(strings.ReplaceAll(err.Error(), p, "<path>"))
 			}
-			return fmt.Sprintf("%v|%s|%s", err, hashOf(b), hashOf([]byte(canon(s))))
+			b, flag := stlDatesResult(o, b)
+			return fmt.Sprintf("%v|%s|%s%s", err, hashOf(b), hashOf([]byte(canon(s))), flag)
 		}
 		if strings.HasPrefix(o.Format, "ttml-indent:") {
 			// a per-call option: must not leak into any other call
@@ -149,7 +183,8 @@ func (o c20Op) run() (res string) {
 		} else {
 			err = writeFormat(o.Format, s, &buf)
 		}
-		return fmt.Sprintf("%v|%s|%s", err, hashOf(buf.Bytes()), hashOf([]byte(canon(s))))
+		out, flag := stlDatesResult(o, buf.Bytes())
+		return fmt.Sprintf("%v|%s|%s%s", err, hashOf(out), hashOf([]byte(canon(s))), flag)
 	default:
 		b := buildList(o.Cues)
 		d := time.Duration(o.Arg)
@@ -311,14 +346,16 @@ func checkC20(c c20Case) string {
 		return checkC20Cold(c)
 	}
 	restore := astisub.Now
-	astisub.Now = func() time.Time { return c19NowA }
-	defer func() { astisub.Now = restore }()
+	astisub.Now = c20Now
+	c20Day.Store(0)
+	defer func() { astisub.Now = restore; c20Day.Store(0) }()
 	if c.Cold && c.History {
 		first := make([]string, len(c.Ops))
 		firstLog := make([]string, len(c.Ops))
 		for i, o := range c.Ops {
 			first[i], firstLog[i] = runLogged(o)
 		}
+		c20Day.Store(1)
 		for i := len(c.Ops) - 1; i >= 0; i-- {
 			again, againLog := runLogged(c.Ops[i])
 			if againLog != firstLog[i] {
@@ -351,7 +388,10 @@ func checkC20(c c20Case) string {
 		}
 		want[i], logged[i] = runLogged(o)
 	}
-	// "alone" must not depend on what ran before: the same calls, one after the other, in the opposite order
+	// "alone" must not depend on what ran before: the same calls, one after the other, in the opposite order (and on
+	// another day)
+	c20Day.Store(1)
+	defer c20Day.Store(0)
 	for i := len(c.Ops) - 1; i >= 0 && want != nil; i-- {
 		again, againLog := runLogged(c.Ops[i])
 		if againLog != logged[i] {
@@ -363,6 +403,7 @@ func checkC20(c c20Case) string {
 				i, c.Ops[i].Kind, c.Ops[i].Format, c.Ops[i].Name, clip(want[i], 500), clip(again, 500))
 		}
 	}
+	c20Day.Store(0)
 	g := c.Goroutines
 	if g < 1 {
 		g = 1
